@@ -179,6 +179,9 @@ static void op_fmt(const Bytes &fmt, const std::vector<AnyArg> &args, bool nullf
             fclose(fs); r = junits(mem, msz); free(mem); return r; }));
         S.emplace_back("writef_ostream", guard([&] { std::ostringstream os; with_args(args, [&](auto &&...a) { ST::writef(os, fp, a...); return 0; }); std::string s = os.str(); return junits(s.data(), s.size()); }));
         S.emplace_back("writef_wostream", guard([&] { std::wostringstream os; with_args(args, [&](auto &&...a) { ST::writef(os, fp, a...); return 0; }); std::wstring s = os.str(); return junits(s.data(), s.size()); }));
+        // a stream with a pending field width and fill: writef writes unformatted, so nothing may change
+        S.emplace_back("writef_ostream_w", guard([&] { std::ostringstream os; os.width(9); os.fill('*'); with_args(args, [&](auto &&...a) { ST::writef(os, fp, a...); return 0; }); std::string s = os.str(); return junits(s.data(), s.size()); }));
+        S.emplace_back("writef_wostream_w", guard([&] { std::wostringstream os; os.width(9); os.fill(L'*'); with_args(args, [&](auto &&...a) { ST::writef(os, fp, a...); return 0; }); std::wstring s = os.str(); return junits(s.data(), s.size()); }));
         S.emplace_back("writef_u16ostream", guard([&] { std::basic_ostringstream<char16_t> os; with_args(args, [&](auto &&...a) { ST::writef(os, fp, a...); return 0; }); auto s = os.str(); return junits(s.data(), s.size()); }));
         S.emplace_back("writef_u32ostream", guard([&] { std::basic_ostringstream<char32_t> os; with_args(args, [&](auto &&...a) { ST::writef(os, fp, a...); return 0; }); auto s = os.str(); return junits(s.data(), s.size()); }));
     }
@@ -341,6 +344,7 @@ static void op_float(double v, bool isfloat, char notation /* g f e E */, int pr
     if (pad) { fmt += '_'; fmt += (char)pad; }
     if (width > 0) fmt += std::to_string(width);
     if (prec >= 0) { fmt += '.'; fmt += std::to_string(prec); }
+    else if (prec < -1) { fmt += '.'; fmt += std::to_string(prec); }      // an explicit negative precision means "none"
     if (plus) fmt += '+';
     if (notation != 'g') fmt += notation;
     fmt += '}';
@@ -358,7 +362,7 @@ static void op_float(double v, bool isfloat, char notation /* g f e E */, int pr
     std::vector<std::pair<std::string, SinkRes>> S;
     S.emplace_back("format", guard([&] { return isfloat ? jstr(ST::format(ef.p, (float)v)) : jstr(ST::format(ef.p, v)); }));
     // plain conversions: only meaningful for a bare notation (no width / precision / flags)
-    if (prec < 0 && !plus && width == 0 && pad == 0 && !zeroflag && align == 0) {
+    if (prec == -1 && !plus && width == 0 && pad == 0 && !zeroflag && align == 0) {
         S.emplace_back("from", guard([&] { return isfloat ? jstr(string::from_float((float)v, notation)) : jstr(string::from_double(v, notation)); }));
         if (!isfloat) S.emplace_back("from", guard([&] { return jstr(string::from_float(v, notation)); }));
         if (notation == 'g') S.emplace_back("stream", guard([&] { ST::string_stream ss; if (isfloat) ss << (float)v; else ss << v; return junits(ss.raw_buffer(), ss.size()); }));
@@ -484,6 +488,12 @@ static Bytes rand_field(Rng &rng, int natural_hint) {
 }
 static void gen_fields(Rng &rng, long long count) {
     static const char *lits[] = {"", "a", "{{", "}}", " x ", "\xC3\xA9", "}", "%d"};
+    // chunks longer than any internal block size, with multi-byte characters across every 256-byte offset
+    for (int lead = 0; lead < 4; ++lead) for (uint32_t cp : {0xE9u, 0x20ACu, 0x1F600u}) {
+        std::vector<uint32_t> sc(lead, 'a'); for (int i = 0; i < 200; ++i) sc.push_back(cp);
+        op_fmt("{}", {mk_str(AnyArg::S_ST, sc)}); op_fmt("[{>5}|{}]", {mk_str(AnyArg::S_CSTR, sc), mk_int(AnyArg::I32, 7, 7)});
+        AnyArg lit = mk_str(AnyArg::S_ST, sc); op_fmt(lit.b + "{}" + lit.b, {mk_int(AnyArg::I32, -1, 0)});
+    }
     for (long long k = 0; k < count; ++k) {
         int nargs = 1 + (int)rng.below(3), nfields = 1 + (int)rng.below(3);
         std::vector<AnyArg> args; for (int i = 0; i < nargs; ++i) args.push_back(rand_arg(rng));
@@ -498,6 +508,15 @@ static void gen_int_layouts() {
     static const char *specs[] = {"{}", "{d}", "{x}", "{X}", "{o}", "{b}", "{#x}", "{#X}", "{#o}", "{#b}", "{+}", "{+#x}", "{08}", "{08x}", "{#08x}", "{+08}", "{<8}|", "{>8}", "{_*8}", "{_*<8}|", "{#_*12b}", "{+_ 6d}", "{c}", "{1}", "{2}", "{+#012o}"};
     for (AnyArg::T t : ts) for (long long v : SBOUND) for (int variant = 0; variant < ((t == AnyArg::I64 || t == AnyArg::U64) ? 2 : 1); ++variant)
         for (const char *s : specs) { if (t == AnyArg::C8 && !strcmp(s, "{c}") && (v < 0 || v > 127)) continue; op_fmt(s, {mk_int(t, v, (unsigned long long)v, variant)}); }
+    // every width from 1 to beyond the natural size, for each radix, prefix/sign flag and padding style: the pad
+    // count is (width - sign - prefix - digits) clamped at zero, also when the width lies between the number of
+    // digits and the full natural size
+    for (long long v : {0LL, 5LL, 0xabcLL, -0xabcLL, 255LL, -1LL}) for (const char *cl : {"", "x", "X", "o", "b"}) for (const char *fl : {"", "#", "+", "#+"})
+        for (const char *pd : {"", "0", "_*", "<", "<_."}) for (int w = 1; w <= 14; ++w) {
+            Bytes sp = "{"; sp += pd; sp += std::to_string(w); sp += fl; sp += cl; sp += "}|";
+            op_fmt(sp, {mk_int(v < 0 ? AnyArg::I32 : AnyArg::U32, v, (unsigned long long)v)});
+            if (w % 5 == 0) op_fmt(sp, {mk_int(AnyArg::I64, v, (unsigned long long)v)});
+        }
     // strings and booleans: precision and width relative to the length
     static const AnyArg::T f[] = {AnyArg::S_CSTR, AnyArg::S_ST, AnyArg::S_STD, AnyArg::S_VIEW, AnyArg::S_C8Z, AnyArg::S_U8STD, AnyArg::S_U16Z, AnyArg::S_U32Z, AnyArg::S_WZ, AnyArg::S_U16STD, AnyArg::S_WSTD};
     for (AnyArg::T form : f) for (int len = 0; len <= 5; ++len) for (int w : {0, 3, 4, 5, 6}) for (int p : {-1, 0, 1, 4, 5, 6}) for (const char *al : {"", "<", ">"}) for (const char *pd : {"", "_*", "0"}) {
@@ -589,6 +608,7 @@ static void gen_floats(Rng &rng, long long count, bool heavy) {
         op_float(v, isf, n, -1, false, 0, 0, 0, false);
         for (int p : precs) { if (!heavy && p > 17 && std::fabs(v) > 1e20) { if (p != 40) continue; } op_float(v, isf, n, p, false, 0, 0, 0, false); }
         op_float(v, isf, n, 3, true, 0, 0, 0, false);
+        op_float(v, isf, n, -3, false, 0, 0, 0, false); op_float(v, isf, n, INT_MIN, false, 9, 1, 0, false);
         for (int w : {5, 12, 80}) for (int al = 0; al < 3; ++al) op_float(v, isf, n, 2, (w & 1) != 0, w, al, al == 1 ? '*' : 0, al == 2);
     }
     for (long long k = 0; k < count; ++k) {
